@@ -252,12 +252,11 @@ pub fn make_base(name: &str, inst: usize, cfg: &Cfg, fp: &FriParams) -> Result<P
             Ok(ProofObj::Batch { proof, tpi: vec![vec![]; n] })
         }
         "W" => {
-            // Wiring variants of one circuit shape (`p0, p1, out`: `x = p0 + p1`, then `idx` more
-            // steps `y = y + (p0 | p1)`, `y == out`): the two "value instances" use the OTHER
-            // operand in every step. Same op kinds in the same order, same table heights - one
+            // Wiring variants of one circuit shape (`p0, p1, out`: `x = p0 + p1`, then 1 (W0) /
+            // 40 (W1) steps `y = y + (p0 | p1)`, `y == out`): the two "value instances" use the OTHER operand in every step. Same op kinds in the same order, same table heights - one
             // shape id (checked by main like for every base) - but other ALU operand indices in
             // the preprocessed columns, hence another preprocessed commitment (checked by main).
-            let steps = idx + 1;
+            let steps = if idx == 0 { 1 } else { 40 * idx };
             let tp = TablePacking::new(1, 1).with_fri_params(fp.log_final_poly_len, fp.log_blowup);
             let (v0, v1) = if inst == 0 { (3u32, 4u32) } else { (7u32, 2u32) };
             let mut b = CircuitBuilder::<F>::new();
